@@ -45,8 +45,23 @@ func c20Check(cs c20Case) (clause, detail string) {
 	}
 	conn := seq.NewConn(seq.Script{Input: in, End: end, FailWriteFrom: cs.FailWrite})
 	out := srv.RunConn(s, conn)
-	if out.Panic != "" || out.Spin != "" {
-		return "", "" // crash: C07/C03
+	if out.Panic != "" {
+		// a crash that only happens with a tracer installed is a span the connection
+		// loop finished, or asked for, after it had been popped: differential run
+		d2 := srv.NewDouble()
+		catalogueDouble(d2)
+		s2 := srv.NewServer(d2)
+		if cs.Password != "" {
+			s2.SetRequirePass(cs.Password)
+			installPassword(s2, cs.Password)
+		}
+		if o2 := srv.RunConn(s2, seq.NewConn(seq.Script{Input: in, End: end, FailWriteFrom: cs.FailWrite})); o2.Panic == "" {
+			return "panic-with-tracer", "the connection loop panics only when a tracer is installed (a span was used after it had been popped): " + out.Panic + " at " + out.PanicSite + " events=" + spanLog(tr.Events)
+		}
+		return "", "" // crashes without a tracer too: C07/C03
+	}
+	if out.Spin != "" {
+		return "", ""
 	}
 	cl, dt, roots := srv.CheckSpans(tr.Events)
 	if cl != "" {
